@@ -265,3 +265,6 @@ def run(ctx):
                 all(ig.postdominated_by(u, clears) for u in unreg)
             ctx.ob("C09.R5e", L.short(fn), ok, fn.loc,
                    "release() must unregister only when it still owns a slot and forget the slot afterwards (at most once)")
+
+
+SWEEP = ["concurrent/test_epoch.cpp"]
